@@ -3,10 +3,13 @@ package props
 import (
 	"fmt"
 	"math/rand"
+	"strings"
 	"time"
 
 	"github.com/named-data/ndnd/fw/core"
 	"github.com/named-data/ndnd/fw/defn"
+	fwfw "github.com/named-data/ndnd/fw/fw"
+	"github.com/named-data/ndnd/fw/table"
 	enc "github.com/named-data/ndnd/std/encoding"
 
 	"verif/internal/fwsim"
@@ -98,4 +101,60 @@ func c08FreeRun(c *h.Ctx, id string, r *rand.Rand) {
 		return
 	}
 	c.Count("free_running_removal_ms_total", took.Milliseconds())
+}
+
+// c08Retx: retransmissions that are forwarded again (they arrive after the suppression interval)
+// refresh the records of a pending entry. After every step no PIT entry and no in-/out-record may
+// be scheduled to live longer than the lifetime of the Interest that just arrived: expiry times
+// are taken from the table through the structural hook and compared with the harness clock.
+func c08Retx(c *h.Ctx, id string, r *rand.Rand) {
+	c.Eval(1)
+	s := fwsim.New(fwsim.Options{CsAdmit: false, CsServe: false, CsCapacity: 8, DnlLifetimeMs: 6000,
+		FibAlgo: []string{"nametree", "hashtable"}[r.Intn(2)]})
+	s.AddFace(1, true, defn.PointToPoint)
+	s.AddFace(2, false, defn.PointToPoint)
+	s.AddFace(3, false, defn.PointToPoint)
+	px, _ := enc.NameFromStr("/x")
+	s.Fib.InsertNextHopEnc(px, 2, 1)
+	if r.Intn(2) == 0 {
+		s.Fib.InsertNextHopEnc(px, 3, 1)
+		sn, _ := enc.NameFromStr("/localhost/nfd/strategy/multicast/v=1")
+		s.Fib.SetStrategyEnc(enc.Name{}, sn)
+	}
+	lifeMs := []int{1500, 2500, 4000}[r.Intn(3)]
+	n, _ := enc.NameFromStr(fmt.Sprintf("/x/retx%d", r.Intn(3)))
+	rounds := 2 + r.Intn(2)
+	for k := 0; k <= rounds; k++ {
+		if k > 0 {
+			time.Sleep(time.Duration(520+r.Intn(60)) * time.Millisecond) // beyond the 500 ms suppression interval
+		}
+		nonce := uint32(1000 + k)
+		st := &fwStep{Kind: "interest", Face: 1, name: n, Nonce: &nonce, LifeMs: &lifeMs}
+		p, err := s.Ingest(buildInterestWire(st), 1, nil, nil)
+		if err != nil {
+			c.Inconclusive("harness Interest was not queued by the link service")
+			return
+		}
+		t0 := time.Now()
+		if pi := h.Guard(func() { s.Interest(p) }); pi != nil {
+			c.Violation("C08:panic:interest:"+pi.Frame+":"+pi.Class, id, "Interest pipeline panicked: "+pi.Value, nil)
+			return
+		}
+		sends := len(s.TakeSends())
+		info := table.VerifPitCsStats(fwfw.VerifPitCs(s.T))
+		bound := time.Now().Add(time.Duration(lifeMs)*time.Millisecond + 50*time.Millisecond)
+		c.Count("retransmission_expiry_checks", 1)
+		if k > 0 && sends > 0 {
+			c.Count("retransmissions_forwarded_again", 1)
+		}
+		for what, tt := range map[string]time.Time{"PIT entry": info.MaxPitExpiry, "in-/out-record": info.MaxRecordExpiry} {
+			if tt.After(bound) {
+				c.Violation("C08:expiry-beyond-lifetime:"+strings.ReplaceAll(what, " ", "-"), id,
+					fmt.Sprintf("after Interest %d of %d (lifetime %d ms, forwarded again: %v) a %s is scheduled to expire %d ms after the Interest arrived", k+1, rounds+1, lifeMs, sends > 0, what, tt.Sub(t0).Milliseconds()),
+					map[string]any{"lifetime_ms": lifeMs, "interest_number": k + 1, "sends": sends, "expires_after_ms": tt.Sub(t0).Milliseconds()})
+				return
+			}
+		}
+	}
+	c.Distinct(fmt.Sprintf("retx|life=%d|rounds=%d", lifeMs, rounds))
 }
